@@ -66,7 +66,10 @@ Definition ex_fee (a b : Z) : Z :=
   if (a =? 2) && (b =? 3) then 10000000000000000 else if (a =? 3) && (b =? 4) then 0 else 1500000000000000.
 (* trader 7 is on the reduced-fee whitelist *)
 Definition ex_state : state CP :=
-  @mkState CP ex_pools ex_bank ex_fee (fun a => match a with Trader 7 => true | _ => false end).
+  @mkState CP ex_pools ex_bank ex_fee (fun a => match a with Trader 7 => true | _ => false end) (fun _ => None).
+(* the same chain with taker-fee share agreements of 60 % on denoms 1 and 3 *)
+Definition ex_state_skim : state CP :=
+  @mkState CP ex_pools ex_bank ex_fee (fun _ => false) (fun d => if (d =? 1) || (d =? 3) then Some 600000000000000000 else None).
 
 Definition res_val {A} (r : result (A * Z)) : Z := match r with Ok (_, v) => v | Err _ => -1 end.
 Definition res_err {A} (r : result A) : option err := match r with Ok _ => None | Err e => Some e end.
